@@ -198,7 +198,7 @@ theorem render_readAllFuel (n : Nat) : âˆ€ (f : Nat) (s : Bytes), s.length < f â
 
 
 theorem parseJSON_ne_panic (P : Params) (hP : P.Good) (E : Ext) (line : Bytes) : parseJSON P E line â‰  .panic := by
-  have hP' : P.checkedAssertions = true := hP
+  have hP' : P.checkedAssertions = true := hP.1
   unfold parseJSON
   cases E.view line with
   | notObject => simp
